@@ -331,8 +331,11 @@ def c09_cases(tier, rng):
         for pat in set(pats):
             gid += 1
             n, edges, pmaps = union_of(parts, pat)
-            # sizes are a function of the union's node index, so that each part sees the same sizes solo and in the union
-            pat_sz = K.SIZE_PATTERNS["het"]
+            # sizes are a function of the union's node index, so that each part sees the same sizes solo and in the union;
+            # every sixth group with sizes off the binary grid (tenths, thirds: the shift of a component is then rounded, and
+            # nothing else may depend on it - judged by PartOKApprox)
+            sden = rng.choice([10, 3, 10, 7]) if t % 6 == 2 else 0
+            pat_sz = K.SIZE_PATTERNS["dec" if sden else "het"]
             usm = [[1, pat_sz[i % len(pat_sz)][0], pat_sz[i % len(pat_sz)][1]] for i in range(n)]
             out = []
             for pi, (pn, pe) in enumerate(parts):
@@ -345,12 +348,17 @@ def c09_cases(tier, rng):
             uc["smap"] = usm
             uc.update(g=gid, rel="union", ex=1)
             out.append(uc)
+            if sden:
+                for pc in out:
+                    pc["sden"] = sden
+                    if pc["p5"] == "poly" and t % 12 == 2:
+                        pc["p5"] = "ortho"
             # the parts and the union must run with the very same options (apply() replaces the slow network-simplex
             # positioner on large inputs, which the union can be while its parts are not)
             for pc in out:
                 pc["p4"] = uc["p4"]
                 pc["budgetms"] = uc["budgetms"]
-                if any(pc[k] != uc[k] for k in ("p1", "p2", "p3", "p4", "p5", "ns", "ls", "fixed", "virt", "thor")):
+                if any(pc[k] != uc[k] for k in ("p1", "p2", "p3", "p4", "p5", "ns", "ls", "fixed", "virt", "thor", "sden")):
                     raise core.HarnessError("C09 group with different options")
             yield from out
 
